@@ -44,3 +44,15 @@ func CheckSlotSpan(slotAfter func(delta time.Duration) common.Slot, slot common.
 	}
 	return nil
 }
+
+// SyncCommitteeAtSlot returns the sync committee whose members sign at the given slot, from the context of the state at that slot.
+// Messages of a slot are included in the block of the next slot: at the last slot of a sync committee period
+// the next sync committee is already the signing one (see compute_subnets_for_sync_committee and get_sync_subcommittee_pubkeys).
+func SyncCommitteeAtSlot(spec *common.Spec, epc *common.EpochsContext, slot common.Slot) *common.IndexedSyncCommittee {
+	period := spec.SlotToEpoch(slot) / spec.EPOCHS_PER_SYNC_COMMITTEE_PERIOD
+	nextSlotPeriod := spec.SlotToEpoch(slot+1) / spec.EPOCHS_PER_SYNC_COMMITTEE_PERIOD
+	if period == nextSlotPeriod {
+		return epc.CurrentSyncCommittee
+	}
+	return epc.NextSyncCommittee
+}
